@@ -6,12 +6,20 @@
 package conc
 
 import (
+	"bytes"
 	"encoding/hex"
+	"encoding/json"
 	"fmt"
+	"io"
+	"os"
+	"os/exec"
+	"path/filepath"
+	"strconv"
 	"strings"
 
 	structform "github.com/elastic/go-structform"
 	"github.com/elastic/go-structform/gotype"
+	sfjson "github.com/elastic/go-structform/json"
 
 	"verif/engines/common"
 	"verif/engines/reuse"
@@ -69,6 +77,24 @@ func render(parts []interface{}) string {
 }
 
 type panicked string
+
+// newEnc builds an encoder; JSON encoders get per-task option settings.
+func newEnc(f model.Format, w io.Writer, opts int) structform.Visitor {
+	if f == model.JSON {
+		v := sfjson.NewVisitor(w)
+		if opts&1 != 0 {
+			v.SetEscapeHTML(false)
+		}
+		if opts&2 != 0 {
+			v.SetExplicitRadixPoint(true)
+		}
+		if opts&4 != 0 {
+			v.SetIgnoreInvalidFloat(true)
+		}
+		return v
+	}
+	return common.ByName(f).NewVisitor(w)
+}
 
 func yieldingReader(data []byte, sizes []int, yield func()) *simkit.Reader {
 	return &simkit.Reader{Data: data, Sizes: sizes, Yield: yield}
@@ -175,6 +201,11 @@ func genShared(c *simkit.Choices) *shared {
 	te0 := model.TypeByName(inner[c.N(len(inner))])
 	s.types = append(s.types, te0)
 	s.vals = append(s.vals, te0.Gen(c))
+	// the second shared value is a map whose key needs HTML escaping: its
+	// encoding depends on a per-encoder option
+	hk := []string{"<a>", "a&b", "x<y>&z", "<", "k>"}[c.N(5)] + model.GenKey(c, 6)
+	s.types = append(s.types, model.TypeByName("map[string]interface{}"))
+	s.vals = append(s.vals, map[string]interface{}{hk: model.GenText(c, 12)})
 	for i, n := 0, 1+c.N(3); i < n; i++ {
 		te := pickType(c)
 		s.types = append(s.types, te)
@@ -227,7 +258,7 @@ func foreignMarker(s, kind string, own int) string {
 }
 
 func genOp(c *simkit.Choices, sh *shared, taskIdx int) *op {
-	kind := c.N(8)
+	kind := c.N(9)
 	switch kind {
 	case 0: // fold -> encoder -> writer
 		i := c.N(len(sh.vals))
@@ -237,8 +268,8 @@ func genOp(c *simkit.Choices, sh *shared, taskIdx int) *op {
 			te := model.PickType(c, false, false, false)
 			val, tname = te.Gen(c), te.Name
 		}
-		cd := common.ByName(f)
-		return &op{desc: OpDesc{Kind: "fold-encode", Format: string(f), Type: tname},
+		eo := c.N(8)
+		return &op{desc: OpDesc{Kind: "fold-encode", Format: string(f), Type: tname, Variant: eo},
 			check: func(_ string, parts []interface{}) string {
 				out, _ := parts[0].([]byte)
 				if m := foreignMarker(string(out), "v", -1); m != "" {
@@ -249,7 +280,7 @@ func genOp(c *simkit.Choices, sh *shared, taskIdx int) *op {
 			run: func(yield func()) []interface{} {
 				return guard(func() []interface{} {
 					w := yieldingWriter(yield)
-					err := gotype.Fold(val, cd.NewVisitor(w))
+					err := gotype.Fold(val, newEnc(f, w, eo))
 					return []interface{}{w.Buf, err}
 				})
 			}}
@@ -281,12 +312,13 @@ func genOp(c *simkit.Choices, sh *shared, taskIdx int) *op {
 		doc, f := sh.docs[i], sh.fmts[i]
 		df := model.Formats[c.N(3)]
 		reads := drawReads(c)
-		src, dst := common.ByName(f), common.ByName(df)
-		return &op{desc: OpDesc{Kind: "transcode", Format: string(f), Dst: string(df), Doc: hex.EncodeToString(doc), Reads: reads},
+		src := common.ByName(f)
+		eo := c.N(8)
+		return &op{desc: OpDesc{Kind: "transcode", Format: string(f), Dst: string(df), Doc: hex.EncodeToString(doc), Reads: reads, Variant: eo},
 			run: func(yield func()) []interface{} {
 				return guard(func() []interface{} {
 					w := yieldingWriter(yield)
-					_, err := src.ParseReader(yieldingReader(doc, reads, yield), dst.NewVisitor(w))
+					_, err := src.ParseReader(yieldingReader(doc, reads, yield), newEnc(df, w, eo))
 					return []interface{}{w.Buf, err}
 				})
 			}}
@@ -414,9 +446,51 @@ func genOp(c *simkit.Choices, sh *shared, taskIdx int) *op {
 					return []interface{}{to}
 				})
 			}}
+	case 7: // a corrupted / truncated document through a one-shot entry point: the error path
+		if len(sh.docs) == 0 {
+			return genOp(c, sh, taskIdx)
+		}
+		i := c.N(len(sh.docs))
+		f := sh.fmts[i]
+		cd := common.ByName(f)
+		bad := append([]byte{}, sh.docs[i]...)
+		if len(bad) > 1 {
+			switch c.N(3) {
+			case 0:
+				bad = bad[:1+c.N(len(bad)-1)] // truncated
+			case 1:
+				bad[c.N(len(bad))] ^= byte(1 << uint(c.N(8)))
+			default:
+				at := c.N(len(bad))
+				bad = append(bad[:at:at], append([]byte{byte(c.N(256))}, bad[at:]...)...)
+			}
+		}
+		if f == model.UBJSON && common.HasPayloadlessTyped(bad) {
+			bad = append([]byte{}, sh.docs[i][:len(sh.docs[i])/2]...) // known finding of C03 (event flood): plain truncation instead
+		}
+		entry := c.N(3)
+		reads := drawReads(c)
+		return &op{desc: OpDesc{Kind: "parse-hostile", Format: string(f), Doc: hex.EncodeToString(bad), Reads: reads, Variant: entry},
+			run: func(yield func()) []interface{} {
+				return guard(func() []interface{} {
+					t := simkit.NewTap(nil)
+					t.MaxKeep = 200
+					t.Hook = func(int, *simkit.Ev) error { yield(); return nil }
+					var err error
+					switch entry {
+					case 0:
+						err = cd.Parse(simkit.Exact(bad), t)
+					case 1:
+						err = cd.ParseString(string(bad), t)
+					default:
+						_, err = cd.ParseReader(yieldingReader(bad, reads, yield), t)
+					}
+					return []interface{}{simkit.EventsString(t.Events, 60), err}
+				})
+			}}
 	default: // a generated event stream (all event kinds, extended events, uint64 above MaxInt64) into an encoder
 		f := model.Formats[c.N(3)]
-		cd := common.ByName(f)
+		eo := c.N(8)
 		oo := model.OpsOpts{Extended: true, NonFinite: f != model.JSON, BigUint: true, Hints: true, MaxDepth: 3, Budget: 10, MaxStr: 30, DeepChains: true}
 		ops := model.GenOps(c, oo)
 		if c.Bool() {
@@ -425,11 +499,11 @@ func genOp(c *simkit.Choices, sh *shared, taskIdx int) *op {
 				{Ev: simkit.Ev{K: simkit.KUint64, U: model.GenUintBig(c).U}}, {Ev: simkit.Ev{K: simkit.KUint64, U: model.GenUintBig(c).U}}}
 			ops = append(append(big, ops...), model.Op{Ev: simkit.Ev{K: simkit.KArrEnd}})
 		}
-		return &op{desc: OpDesc{Kind: "events-encode", Format: string(f), Values: len(ops)},
+		return &op{desc: OpDesc{Kind: "events-encode", Format: string(f), Values: len(ops), Variant: eo},
 			run: func(yield func()) []interface{} {
 				return guard(func() []interface{} {
 					w := yieldingWriter(yield)
-					enc := structform.EnsureExtVisitor(cd.NewVisitor(w))
+					enc := structform.EnsureExtVisitor(newEnc(f, w, eo))
 					for _, o := range ops {
 						if err := model.Apply(enc, o); err != nil {
 							return []interface{}{w.Buf, err}
@@ -441,13 +515,14 @@ func genOp(c *simkit.Choices, sh *shared, taskIdx int) *op {
 	}
 }
 
-func (Engine) Run(c *simkit.Choices, x *simkit.Ctx) *simkit.Violation {
-	st := x.Stats
+// generate draws the programs of one run. It is a pure function of the choice
+// source, so a reference child process can regenerate it from the trace.
+func generate(c *simkit.Choices) (progs [][]*op, sc *Scenario, policy int) {
 	sh := genShared(c)
 	ntasks := 2 + c.N(5)
-	policy := c.N(simkit.NumPolicies)
-	sc := &Scenario{Policy: policy}
-	progs := make([][]*op, ntasks)
+	policy = c.N(simkit.NumPolicies)
+	sc = &Scenario{Policy: policy}
+	progs = make([][]*op, ntasks)
 	for t := 0; t < ntasks; t++ {
 		var descs []OpDesc
 		for i, n := 0, 1+c.N(4); i < n; i++ {
@@ -457,6 +532,71 @@ func (Engine) Run(c *simkit.Choices, x *simkit.Ctx) *simkit.Violation {
 		}
 		sc.Tasks = append(sc.Tasks, descs)
 	}
+	return
+}
+
+// RefMain is the body of the reference child process: it regenerates the
+// programs from the generation trace read from in and executes ONE task alone
+// in this fresh process, printing its rendered results as JSON.
+func RefMain(in io.Reader, out io.Writer, task int) int {
+	var trace []uint64
+	if err := json.NewDecoder(in).Decode(&trace); err != nil {
+		fmt.Fprintln(os.Stderr, "conc-ref: bad trace:", err)
+		return 2
+	}
+	progs, _, _ := generate(simkit.ReplayChoices(trace))
+	if task < 0 || task >= len(progs) {
+		fmt.Fprintln(os.Stderr, "conc-ref: no such task")
+		return 2
+	}
+	var res []string
+	for _, o := range progs[task] {
+		// hex: the rendering may hold arbitrary bytes, JSON strings would not
+		// carry them unchanged
+		res = append(res, hex.EncodeToString([]byte(render(o.run(func() {})))))
+	}
+	json.NewEncoder(out).Encode(res)
+	return 0
+}
+
+// freshReference runs every task alone, each in a process of its own (plain
+// build), so that the reference cannot be polluted by process-global state
+// left behind by other tasks.
+func freshReference(genTrace []uint64, ntasks int) ([][]string, error) {
+	dir := os.Getenv("VERIF_DIR")
+	if dir == "" {
+		dir = "/verif"
+	}
+	bin := filepath.Join(dir, ".build", "vcheck")
+	tr, _ := json.Marshal(genTrace)
+	out := make([][]string, ntasks)
+	for t := 0; t < ntasks; t++ {
+		cmd := exec.Command(bin, "conc-ref", strconv.Itoa(t))
+		cmd.Stdin = bytes.NewReader(tr)
+		cmd.Env = append(os.Environ(), "GOMAXPROCS=1")
+		b, err := cmd.Output()
+		if err != nil {
+			return nil, fmt.Errorf("reference process for task %d: %v", t, err)
+		}
+		if err := json.Unmarshal(b, &out[t]); err != nil {
+			return nil, fmt.Errorf("reference process for task %d: %v", t, err)
+		}
+		for i, h := range out[t] {
+			raw, err := hex.DecodeString(h)
+			if err != nil {
+				return nil, fmt.Errorf("reference process for task %d: %v", t, err)
+			}
+			out[t][i] = string(raw)
+		}
+	}
+	return out, nil
+}
+
+func (Engine) Run(c *simkit.Choices, x *simkit.Ctx) *simkit.Violation {
+	st := x.Stats
+	progs, sc, policy := generate(c)
+	ntasks := len(progs)
+	genTrace := append([]uint64{}, c.Trace...)
 	simkit.SetCurrent(sc)
 
 	// concurrent phase first (so that process-global first use of every type
@@ -497,6 +637,27 @@ func (Engine) Run(c *simkit.Choices, x *simkit.Ctx) *simkit.Violation {
 		for _, parts := range raw[t] {
 			conc[t] = append(conc[t], render(parts))
 			x.ObserveStr(conc[t][len(conc[t])-1])
+		}
+	}
+	// fresh-process reference (a sample of the runs: one process per task)
+	sample := 4
+	if x.Thorough {
+		sample = 2
+	}
+	if simkit.NewDigest().Str(fmt.Sprint(genTrace)).Sum()%uint64(sample) == 0 {
+		ref, err := freshReference(genTrace, ntasks)
+		if err != nil {
+			return &simkit.Violation{Kind: "harness", Site: "fresh-reference", Detail: err.Error(), Scenario: sc}
+		}
+		st.Probe("fresh-process-reference")
+		for t := 0; t < ntasks; t++ {
+			for i := range progs[t] {
+				if i < len(ref[t]) && ref[t][i] != conc[t][i] {
+					return &simkit.Violation{Kind: "task-result-differs", Site: progs[t][i].desc.Kind + "/fresh-process",
+						Detail: fmt.Sprintf("task %d op %d (%s): among other goroutines %s | alone in a fresh process %s", t, i, progs[t][i].desc.Kind,
+							trunc(conc[t][i], 300), trunc(ref[t][i], 300)), Scenario: sc}
+				}
+			}
 		}
 	}
 	for t := 0; t < ntasks; t++ {
